@@ -18,21 +18,38 @@ var vpTableSpec = []vpRouteSpec{
 	{"*.foo.com", "/", "wild-root"}, {"*.foo.com", "/a", "wild-a"},
 	{"*.a.foo.com", "/", "deep-root"},
 	{"z.foo.com", "/a", "z-a"}, // exact host without a catch-all path: other candidates must still be tried
+	{"*.foo.com:80", "/", "wild80-root"}, // a table key with a default port is no more specific than one without
 	{"", "/", "any-root"}, {"", "/a", "any-a"}, {"", "/FOOBAR", "any-FOOBAR"}, {"", "/foo", "any-foo"},
 }
 
 func vpBuildTable() Table {
 	var defs []RouteDef
 	for i, s := range vpTableSpec {
-		defs = append(defs, RouteDef{Cmd: RouteAddCmd, Service: s.svc, Src: s.host + s.path, Dst: "http://" + []string{"a", "b", "c", "d", "e", "f", "g", "h", "i", "j", "k"}[i] + ":80/"})
+		defs = append(defs, RouteDef{Cmd: RouteAddCmd, Service: s.svc, Src: s.host + s.path, Dst: "http://" + []string{"a", "b", "c", "d", "e", "f", "g", "h", "i", "j", "k", "l"}[i] + ":80/"})
 	}
 	t, err := NewTableCustom(&defs)
 	vp.Assert(err == nil && t != nil, "table-builds")
 	return t
 }
 
-// reference: most specific matching route
-func vpRefLookup(host string, tls bool, path string, fold, globs bool) string {
+// best path match on one host of the table ("" if none)
+func vpBestPath(host, p string, fold bool) string {
+	best, bestLen := "", -1
+	for _, s := range vpTableSpec {
+		sp := s.path
+		if fold {
+			sp = strings.ToLower(sp)
+		}
+		if s.host == host && strings.HasPrefix(p, sp) && len(sp) > bestLen {
+			best, bestLen = s.svc, len(sp)
+		}
+	}
+	return best
+}
+
+// reference: the acceptable results, most specific class of hosts first; hosts of one class are
+// equally specific (a default port on a table key adds no specificity)
+func vpRefLookup(host string, tls bool, path string, fold, globs bool) []string {
 	h := host
 	if !tls && strings.HasSuffix(h, ":80") {
 		h = h[:len(h)-3]
@@ -41,41 +58,44 @@ func vpRefLookup(host string, tls bool, path string, fold, globs bool) string {
 		h = h[:len(h)-4]
 	}
 	h = strings.ToLower(h)
-	// candidate hosts from most to least specific
-	var cands []string
-	if h == "foo.com" {
-		cands = append(cands, "foo.com")
-	}
-	if h == "z.foo.com" {
-		cands = append(cands, "z.foo.com")
-	}
-	if globs && strings.HasSuffix(h, ".a.foo.com") {
-		cands = append(cands, "*.a.foo.com")
-	}
-	if globs && strings.HasSuffix(h, ".foo.com") {
-		cands = append(cands, "*.foo.com")
-	}
-	cands = append(cands, "")
 	p := path
 	if fold {
 		p = strings.ToLower(p)
 	}
-	for _, c := range cands {
-		best, bestLen := "", -1
-		for _, s := range vpTableSpec {
-			sp := s.path
-			if fold {
-				sp = strings.ToLower(sp)
-			}
-			if s.host == c && strings.HasPrefix(p, sp) && len(sp) > bestLen {
-				best, bestLen = s.svc, len(sp)
+	var classes [][]string
+	if h == "foo.com" {
+		classes = append(classes, []string{"foo.com"})
+	}
+	if h == "z.foo.com" {
+		classes = append(classes, []string{"z.foo.com"})
+	}
+	if globs && strings.HasSuffix(h, ".a.foo.com") {
+		classes = append(classes, []string{"*.a.foo.com"})
+	}
+	var shallow []string
+	if globs && strings.HasSuffix(h, ".foo.com") {
+		shallow = append(shallow, "*.foo.com")
+	}
+	// the key "*.foo.com:80" loses its default port for plain requests
+	if globs && ((!tls && strings.HasSuffix(h, ".foo.com")) || (tls && strings.HasSuffix(h, ".foo.com:80"))) {
+		shallow = append(shallow, "*.foo.com:80")
+	}
+	if len(shallow) > 0 {
+		classes = append(classes, shallow)
+	}
+	classes = append(classes, []string{""})
+	for _, cl := range classes {
+		var ok []string
+		for _, c := range cl {
+			if b := vpBestPath(c, p, fold); b != "" {
+				ok = append(ok, b)
 			}
 		}
-		if bestLen >= 0 {
-			return best
+		if len(ok) > 0 {
+			return ok
 		}
 	}
-	return ""
+	return nil
 }
 
 func vpLookup(matcherName string, globDisabled bool) {
@@ -91,7 +111,7 @@ func vpLookup(matcherName string, globDisabled bool) {
 	got := t.Lookup(req, "", pick, Matcher[matcherName], NewGlobCache(16), globDisabled)
 	// with host globbing disabled only literal host keys are candidates
 	want := vpRefLookup(host, isTLS, path, matcherName == "iprefix", !globDisabled)
-	if want == "" {
+	if len(want) == 0 {
 		vp.Assert(got == nil, "no-candidate-no-route")
 		return
 	}
@@ -100,10 +120,16 @@ func vpLookup(matcherName string, globDisabled bool) {
 	if got == nil {
 		return
 	}
-	if strings.HasPrefix(want, "deep") || strings.HasPrefix(want, "wild") {
+	if strings.HasPrefix(want[0], "deep") || strings.HasPrefix(want[0], "wild") {
 		vp.Cover("wildcard-host")
 	}
-	vp.Assert(got.Service == want, "most-specific-route-wins")
+	match := false
+	for _, w := range want {
+		if got.Service == w {
+			match = true
+		}
+	}
+	vp.Assert(match, "most-specific-route-wins")
 }
 
 func VPH_C03_prefix()        { vpLookup("prefix", false) }
